@@ -87,7 +87,9 @@ def gen_case(rng):
             # how the plan's request reaches the gate: Plan.reflection, or the flag the LLM planner path stashes on the state
             "flag_via": rng.choice(["plan", "plan", "stash"]),
             "fault": fault, "exc": rng.randrange(len(EXCS)), "agent": rng.choice(["A", "B", "Ünï"]), "turn": rng.choice([0, 0, 1, 7, 12, "0", "t7"]),
-            "text": rng.choice(["hello world", "moon river cat", "", "!!!", "tree " * 50, "moon\u00a0river\u3000cat\u2003tree"]), "completion": rng.choice(["short summary", "multi\nline\tcompletion with   spaces", "w " * 400, "ünï ✓"]),
+            "text": rng.choice(["hello world", "moon river cat", "", "!!!", "tree " * 50, "moon\u00a0river\u3000cat\u2003tree",
+                                # single letters whose compatibility (NFKC) form is several words / a blank plus a mark
+                                "\ufdfa", "\ufdfa \ufdfb moon", "a\u037ab \ufe70c"]), "completion": rng.choice(["short summary", "multi\nline\tcompletion with   spaces", "w " * 400, "ünï ✓", "\ufdfa", "sum \ufdfb \ufdfa"]),
             "clock2": {"pc_step": rng.choice([0.0, 1e-6]), "wall": rng.choice([1.0e9, 3.0e9]), "tz": rng.choice([None, "JST-9", "PST8PDT", "UTC0", "NST3:30"])},
             "fail_at": rng.choice([1, 1, 2, 3]), "clock_back": rng.random() < 0.5, "now_ms_float": rng.random() < 0.2, "timeout_over_ms": rng.choice([500.0, 500.0, 0.25, 0.375, 0.01, 0.49, 1.0])}
 
